@@ -1006,6 +1006,40 @@ func c06InFlight() []Directed {
 		{"inflight-options-removeall-with-children", []string{"GET"}, "OPTIONS", func(r *mux.Router[*mon.Hnd], _ *mon.Env) { r.Remove(p) }, []string{"GET,HEAD,OPTIONS"}},
 	}
 	var out []Directed
+	// the requests that select the root node ("*" and the empty path, any method) must leave the tree lock free: a write
+	// afterwards completes. Bounded progress instead of "eventually": one Handle on an otherwise idle router gets 30 s.
+	out = append(out, Directed{ID: "lock-free-after-root-requests", Run: func(c *Ctx) {
+		env := mon.NewEnv()
+		r := env.NewRouter("rootreq", mux.WithLock(true), mux.WithTrace(env.NewHnd(mon.KTrace, "")))
+		r.Handle("/a/{id}", env.NewHnd(mon.KRoute, "/a/{id}"), nil, "GET")
+		for _, q := range []mon.Req{{Method: "GET", Path: "*"}, {Method: "GET", Path: ""}, {Method: "OPTIONS", Path: "*"}, {Method: "POST", Path: "*"}, {Method: "TRACE", Path: "*"}, {Method: "HEAD", Path: ""},
+			{Method: "BOGUS", Path: "*"}, {Method: "GET", Path: "/nothing"}, {Method: "PUT", Path: "/a/7"}, {Method: "OPTIONS", Path: "/a/7"}} {
+			o := mon.Do(r, q)
+			c.Eval()
+			if o.Panicked {
+				c.Violate(fmt.Sprintf("%s %q panicked: %v", q.Method, q.Path, o.Panic), nil)
+				return
+			}
+			done := make(chan any, 1)
+			go func() {
+				defer func() { done <- recover() }()
+				r.Handle("/b/{id}", env.NewHnd(mon.KRoute, "/b/{id}"), nil, "GET")
+				r.Remove("/b/{id}")
+				_ = r.Routes()
+			}()
+			select {
+			case p := <-done:
+				if p != nil {
+					c.Violate(fmt.Sprintf("write after %s %q panicked: %v", q.Method, q.Path, p), nil)
+					return
+				}
+			case <-time.After(30 * time.Second):
+				c.Violate(fmt.Sprintf("after the request %s %q returned, Handle/Remove/Routes on the otherwise idle WithLock router did not complete within 30 s: the request left the tree lock held", q.Method, q.Path), map[string]any{"request": q.Method + " " + q.Path})
+				return
+			}
+			c.Class("write_after_root_request_completed")
+		}
+	}})
 	for _, sc := range scens {
 		sc := sc
 		out = append(out, Directed{ID: sc.id, Run: func(c *Ctx) {
